@@ -3102,6 +3102,19 @@ def _is_recursive_binop_chain(node: ast.AST, op: ast.AST) -> bool:
     return True
 
 
+def _is_computed_from_variable(template_match) -> bool:
+    """The new elements of the collection {{variable}} are computed from the collection itself."""
+    variable_code = core.unparse(template_match.variable)
+    computed_from = [template_match.something_else]
+    if hasattr(template_match, "iterable"):
+        computed_from.append(template_match.iterable)
+    return any(
+        core.unparse(node) == variable_code
+        for expression in computed_from
+        for node in core.walk(expression, (ast.Name, ast.Attribute, ast.Subscript))
+    )
+
+
 @processing.fix
 def replace_setcomp_add_with_union(source: str) -> str:
     find = """
@@ -3116,6 +3129,8 @@ def replace_setcomp_add_with_union(source: str) -> str:
     for before, after, template_match in processing.find_replace(
         source, find, replace, yield_match=True
     ):
+        if _is_computed_from_variable(template_match):
+            continue
         if isinstance(template_match.root, ast.BinOp):
             if _is_recursive_binop_chain(template_match.root, ast.BitOr):
                 yield before, after
@@ -3133,6 +3148,8 @@ def replace_setcomp_add_with_union(source: str) -> str:
     for before, after, template_match in processing.find_replace(
         source, find, replace, yield_match=True
     ):
+        if _is_computed_from_variable(template_match):
+            continue
         if isinstance(template_match.root, ast.BinOp):
             if _is_recursive_binop_chain(template_match.root, ast.BitOr):
                 yield before, after
@@ -3154,6 +3171,8 @@ def replace_listcomp_append_with_plus(source: str) -> str:
     for before, after, template_match in processing.find_replace(
         source, find, replace, yield_match=True
     ):
+        if _is_computed_from_variable(template_match):
+            continue
         if isinstance(template_match.root, ast.BinOp):
             if _is_recursive_binop_chain(template_match.root, ast.Add):
                 yield before, after
@@ -3171,6 +3190,8 @@ def replace_listcomp_append_with_plus(source: str) -> str:
     for before, after, template_match in processing.find_replace(
         source, find, replace, yield_match=True
     ):
+        if _is_computed_from_variable(template_match):
+            continue
         if isinstance(template_match.root, ast.BinOp):
             if _is_recursive_binop_chain(template_match.root, ast.Add):
                 yield before, after
